@@ -7,12 +7,13 @@ EXHAUSTIVE = False
 EXPLANATION = ("Decides two structural necessary conditions of a well-formed tree on every skeleton instance: every tree operation "
                "(open, open_before, close, mark) is preceded on all paths by closing a pending error node (S5), and CstData.nodes is "
                "only mutated by push in open/advance, insert in open_before, index_mut of a Rule node in close/close_root and truncate "
-               "(S4). Extent arithmetic (end offsets, span nesting) and the created-callback clause are not decided.")
+               "(S4). and a node closed behind trailing skipped tokens is covered by the non-skip length (S19: otherwise it falls out of its parent). The remaining extent arithmetic (end offsets, span nesting) and the created-callback clause are not decided.")
 
 
 def run(ctx, rep):
     common.s_rules(ctx, rep, [
         lambda i, r, o: skel.s5_errnode(i, r),
         lambda i, r, o: skel.s4_nodes(i, r),
+        lambda i, r, o: skel.s19_close_bump(i, r),
     ])
     rep.assume("extent arithmetic of close/open_before and span nesting are run-time integer facts and are not decided")
